@@ -79,13 +79,13 @@ WordsUpTo(S, n) == IF n = 0 THEN {<<>>}
 -----------------------------------------------------------------------------
 (* Parameters: abstract tokens "KEY" or "KEY=class" *)
 
-MailParams == {"SIZE=num", "SIZE=over", "SIZE=junk", "BODY=7BIT", "BODY=8BITMIME", "BODY=BINARYMIME", "BODY=junk",
+MailParams == {"SIZE=num", "SIZE=over", "SIZE=junk", "SIZE=big", "SIZE=signed", "BODY=7BIT", "BODY=8BITMIME", "BODY=BINARYMIME", "BODY=junk",
                "SMTPUTF8", "REQUIRETLS", "RET=FULL", "RET=HDRS", "RET=junk", "ENVID=xtext", "ENVID=badxtext", "ENVID=empty",
                "AUTH=mailbox", "AUTH=null", "AUTH=badxtext", "UNKNOWN=1", "UNKNOWN"}
 RcptParams == {"NOTIFY=NEVER", "NOTIFY=SUCCESS,FAILURE", "NOTIFY=NEVER,SUCCESS", "NOTIFY=junk", "ORCPT=rfc822", "ORCPT=utf-8",
                "ORCPT=badtype", "ORCPT=notype", "RRVS=time", "RRVS=junk", "UNKNOWN=1"}
 
-KeyOf(p) == CASE p \in {"SIZE=num", "SIZE=over", "SIZE=junk"} -> "SIZE"
+KeyOf(p) == CASE p \in {"SIZE=num", "SIZE=over", "SIZE=junk", "SIZE=big", "SIZE=signed"} -> "SIZE"
               [] p \in {"BODY=7BIT", "BODY=8BITMIME", "BODY=BINARYMIME", "BODY=junk"} -> "BODY"
               [] p \in {"RET=FULL", "RET=HDRS", "RET=junk"} -> "RET"
               [] p \in {"ENVID=xtext", "ENVID=badxtext", "ENVID=empty"} -> "ENVID"
@@ -101,7 +101,9 @@ ExtOfKey(k) == CASE k \in {"RET", "ENVID", "NOTIFY", "ORCPT"} -> "DSN"
                  [] k = "SMTPUTF8" -> "SMTPUTF8" [] k = "REQUIRETLS" -> "REQUIRETLS"
                  [] k = "RRVS" -> "RRVS" [] OTHER -> ""
 
-Malformed(p) == p \in {"SIZE=junk", "BODY=junk", "RET=junk", "ENVID=badxtext", "ENVID=empty", "AUTH=badxtext",
+\* ("SIZE=big": a value in the upper half of the 32-bit range, well-formed;
+\* "SIZE=signed": a sign is not part of 1*DIGIT)
+Malformed(p) == p \in {"SIZE=junk", "SIZE=signed", "BODY=junk", "RET=junk", "ENVID=badxtext", "ENVID=empty", "AUTH=badxtext",
                        "NOTIFY=NEVER,SUCCESS", "NOTIFY=junk", "ORCPT=badtype", "ORCPT=notype", "RRVS=junk"}
 
 \* en: set of enabled extensions; sizeLimit: a size limit is configured
@@ -110,7 +112,7 @@ ParamBad(p, en, sizeLimit) ==
   \/ Malformed(p)
   \/ ExtOfKey(KeyOf(p)) # "" /\ ExtOfKey(KeyOf(p)) \notin en
   \/ p = "BODY=BINARYMIME" /\ "BINARYMIME" \notin en
-  \/ p = "SIZE=over" /\ sizeLimit
+  \/ p \in {"SIZE=over", "SIZE=big"} /\ sizeLimit
 
 ParamsVerdict(ps, en, sizeLimit) ==
   IF \E i, j \in DOMAIN ps : i # j /\ KeyOf(ps[i]) = KeyOf(ps[j]) THEN "unspec"     \* duplicates
